@@ -628,23 +628,23 @@ def r_event_demand(ctx, repo):
         f = P.methods.get(name)
         if f is None:
             raise AnalysisError('Parser.%s has vanished' % name)
-        calls = [c for c in A.func_calls(f.node) if norm(c.func) == 'self.state']
-        ok = len(calls) == 1
-        if ok:
-            c = calls[0]
-            p = c
-            conds = []
-            in_loop = False
-            while p is not None and p is not f.node:
-                p = getattr(p, '_parent', None)
-                if isinstance(p, ast.If):
-                    conds.append(norm(p.test))
-                if isinstance(p, (ast.While, ast.For)):
-                    in_loop = True
-            if 'self.current_event is None' not in conds or in_loop:
+        cfg = CFG(f.node)
+        steps = _nodes_with(cfg, lambda x: isinstance(x, ast.Call) and norm(x.func) == 'self.state')
+        none_edges = []
+        for n in cfg.nodes:
+            if n.kind == 'test':
+                t = norm(n.ast)
+                if t == 'self.current_event is None':
+                    none_edges.append((n, True))
+                elif t == 'self.current_event is not None':
+                    none_edges.append((n, False))
+        ok = len(steps) == 1 and bool(none_edges)
+        for sn in steps:
+            # only when no event is pending, and not inside a cycle (one step per call)
+            if not cfg.guarded(sn, edges=none_edges):
                 ok = False
-        if any(isinstance(n, (ast.While, ast.For)) and 'state' in norm(n) for n in walk_function(f.node)):
-            ok = False
+            if sn in cfg.reach([m for (m, lab) in cfg.succ[sn]]):
+                ok = False
         if ok:
             rule.ok(f.loc(), '%s: one parser step, only when no event is pending' % name)
         else:
